@@ -367,5 +367,8 @@ func FreshProcessReplay(path, inv string) (bool, string) {
 	cmd.Env = append(os.Environ(), "OPSIM_CHILD=1")
 	out, _ := cmd.CombinedOutput()
 	ok := cmd.ProcessState != nil && cmd.ProcessState.ExitCode() == 1 && strings.Contains(string(out), "invariant="+inv+" ")
+	if !ok && cmd.ProcessState != nil && cmd.ProcessState.ExitCode() == 1 && strings.Contains(string(out), "C18 replay:") {
+		ok = true // C18: any reproduced divergence of the recorded history counts
+	}
 	return ok, string(out)
 }
